@@ -73,7 +73,7 @@ fn gen_replicate(rng: &mut Rng, sh: &mut GenShadow, hits: &mut u64, max: u64) ->
     }
     let n = rng.range(1, max);
     let pads = (0..n).map(|_| gen_pad(rng, sh, hits)).collect();
-    LStep::Replicate { pads, term_up }
+    LStep::Replicate { pads, term_up, term_step: false }
 }
 
 pub struct C02;
@@ -92,6 +92,10 @@ impl Check for C02 {
         let mut steps = vec![];
         let long_fill = cfg.area != 0 || rng.chance(0.15);
         let mut file_end_done = false;
+        // small geometry (files roll over after a few hundred tiny records): in a third of these runs the history ends with
+        // batches in which every entry has its own term until the log spans several files, a truncation at the first index
+        // of the newest file, and a reopen (nothing appended in between)
+        let rollover_tail = cfg.area != 0 && Rng::derive(seed, "C02.rollover_tail", 0).chance(0.35);
         for _ in 0..n {
             let r = rng.below(100);
             let st = if r < 4 && cfg.area == 0 && !file_end_done {
@@ -114,7 +118,7 @@ impl Check for C02 {
                 gen_replicate(&mut rng, &mut sh, &mut hits, if long_fill { 40 } else { 20 })
             } else if r < 66 {
                 sh.known = false;
-                LStep::DeleteFrom { back: rng.range(0, 6) }
+                LStep::DeleteFrom { back: rng.range(0, 6), file_start: false }
             } else if r < 72 {
                 LStep::HardState { term_up: rng.range(0, 2), vote: rng.range(0, 5) }
             } else if r < 76 {
@@ -135,6 +139,16 @@ impl Check for C02 {
         }
         steps.push(LStep::Advance { ms: 600 });
         steps.push(LStep::Reopen);
+        if rollover_tail {
+            for _ in 0..rng.range(2, 5) {
+                let k = rng.range(10, 40);
+                let pads: Vec<usize> = (0..k).map(|_| gen_pad(&mut rng, &mut sh, &mut hits) % 40).collect();
+                steps.push(LStep::Replicate { pads, term_up: false, term_step: true });
+            }
+            sh.known = false;
+            steps.push(LStep::DeleteFrom { back: 1, file_start: true });
+            steps.push(LStep::Reopen);
+        }
         json!({"check": "C02", "seed": seed, "cfg": cfg, "steps": steps, "gen": {"aligned": hits}})
     }
     fn execute(&self, script: Value) -> LocalFut<ExecResult> {
@@ -167,20 +181,20 @@ pub fn shrink_lstep(step: &Value) -> Vec<Value> {
                 out.push(LStep::Append { pad: pad / 2, kind, term_up });
             }
         }
-        LStep::Replicate { pads, term_up } => {
+        LStep::Replicate { pads, term_up, term_step } => {
             if pads.len() > 1 {
-                out.push(LStep::Replicate { pads: pads[..pads.len() / 2].to_vec(), term_up });
-                out.push(LStep::Replicate { pads: pads[..pads.len() - 1].to_vec(), term_up });
-                out.push(LStep::Replicate { pads: pads[1..].to_vec(), term_up });
+                out.push(LStep::Replicate { pads: pads[..pads.len() / 2].to_vec(), term_up, term_step });
+                out.push(LStep::Replicate { pads: pads[..pads.len() - 1].to_vec(), term_up, term_step });
+                out.push(LStep::Replicate { pads: pads[1..].to_vec(), term_up, term_step });
             }
             if pads.iter().any(|p| *p > 0) {
-                out.push(LStep::Replicate { pads: pads.iter().map(|_| 0).collect(), term_up });
+                out.push(LStep::Replicate { pads: pads.iter().map(|_| 0).collect(), term_up, term_step });
             }
             if term_up {
-                out.push(LStep::Replicate { pads, term_up: false });
+                out.push(LStep::Replicate { pads, term_up: false, term_step });
             }
         }
-        LStep::DeleteFrom { back } if back > 1 => out.push(LStep::DeleteFrom { back: 1 }),
+        LStep::DeleteFrom { back, file_start } if back > 1 => out.push(LStep::DeleteFrom { back: 1, file_start }),
         LStep::Compact { back } if back > 0 => out.push(LStep::Compact { back: 0 }),
         LStep::Advance { ms } if ms > 1 => out.push(LStep::Advance { ms: 1 }),
         LStep::Member { members, after, addr_len } => {
@@ -295,7 +309,7 @@ impl Check for C03 {
                 0
             };
             sh.known = false;
-            steps.push(LStep::DeleteFrom { back });
+            steps.push(LStep::DeleteFrom { back, file_start: false });
             if rng.chance(0.25) {
                 steps.push(LStep::Reopen);
             }
@@ -368,7 +382,7 @@ impl Check for C05 {
             } else if r < 76 {
                 LStep::SaveApplied { back: rng.range(0, 3) }
             } else if r < 80 {
-                LStep::DeleteFrom { back: rng.range(1, 5) }
+                LStep::DeleteFrom { back: rng.range(1, 5), file_start: false }
             } else if r < 84 {
                 LStep::Advance { ms: *rng.pick(&[1u64, 100, 600]) }
             } else if r < 93 {
@@ -426,7 +440,7 @@ impl Check for C04 {
                 gen_replicate(&mut rng, &mut sh, &mut hits, 10)
             } else if r < 55 {
                 sh.known = false;
-                LStep::DeleteFrom { back: rng.range(1, 6) }
+                LStep::DeleteFrom { back: rng.range(1, 6), file_start: false }
             } else if r < 63 {
                 LStep::HardState { term_up: rng.range(0, 2), vote: rng.range(0, 5) }
             } else if r < 68 {
